@@ -29,7 +29,7 @@ type c16Case struct {
 
 var c16Buffers = []string{"echo hello world", "git commit -m 'x y'", "foo(bar[1]) {baz}", "a\nb\nc", "世界 wörld ok", "  padded  text  ", "one", "x", "if true; then\n  echo \"hi\"\nfi",
 	"https://example.com/a?b=c&d=e", "a.b.c-d_e/f", "\"quoted string\" tail", "tab\there and there", "éà combining ́x", "word",
-	"hello\nworld", "ab\ncd\nef", "w01 w02 w03 w04 w05 w06 w07 w08 w09 w10 w11 w12 w13 w14 w15 w16 w17 w18"}
+	"hello\nworld", "ab\ncd\nef", " 世", "ok 世界", "a,世", "echo wörld", "日本語 テスト", "x 'q界'", "w01 w02 w03 w04 w05 w06 w07 w08 w09 w10 w11 w12 w13 w14 w15 w16 w17 w18"}
 
 var c16EmacsKills = []string{"kill-line", "backward-kill-line", "unix-line-discard", "kill-word", "backward-kill-word", "unix-word-rubout", "shell-kill-word", "shell-backward-kill-word", "kill-whole-line", "kill-region"}
 
